@@ -25,6 +25,11 @@ the string (documented caveat, `space_after_block_string_counterexample`).  Prov
   and — since fix 1fd2d48 — enum variants with data, written `{Variant: payload}`) write one line of
   flow text that reads back as the same tree (`flow_wrapper_roundtrip_partial`), hence as the same tree
   as the unwrapped value where that is in the C13 fragment too (`flow_wrapper_same_tree_partial`)
+* `tagged_enums` and variant names: the name of a unit variant is written by the VALUE rule in value
+  positions (bare or after the tag `!!Enum `) and by the KEY rule in key positions; a safe name is
+  written as itself by every rule and `!!Enum name`, `name`, `name:` read back as the string `name`
+  (`unit_variant_name_roundtrip`); a name that is a YAML 1.1 boolean spelling is quoted in every one of
+  these positions (`unit_variant_yaml11_bool_name_regression`: seed C20/3, fix b697ff3)
 * explicit literal strings: `LitStr(s)` at the root round-trips exactly when `s` has no control
   character but LF / TAB, some content, and needs no indentation indicator
   (`explicit_literal_roundtrip_partial`); with CR / NUL / other controls, inside flow collections and for
@@ -282,6 +287,114 @@ theorem block_scalar_after_tuple_dash_regression :
     readDoc "k:\n  - |-\n    a\n    b\n  - 1\n".toList =
       some (erase (SVal.struct [("k".toList, .tupleStruct [.litStr "a\nb".toList, .int 1])])) :=
   ⟨rfl, by decide +kernel⟩
+
+/-! ## names of unit variants: value rule, key rule, `tagged_enums` -/
+
+/-- the tag token `!!Enum ` (an enum name has no blank) is skipped by the reader -/
+theorem dropWhile_tag : ∀ (e : List Char) (n : List Char), (∀ c ∈ e, c ≠ ' ') →
+    (e ++ ' ' :: n).dropWhile (· != ' ') = ' ' :: n
+  | [], n, _ => by simp
+  | c :: e, n, h => by
+    have hc : (c != ' ') = true := by simpa using h c (by simp)
+    simp only [List.cons_append, List.dropWhile_cons, hc, if_true]
+    exact dropWhile_tag e n (fun x hx => h x (by simp [hx]))
+
+theorem skipTag_tagged {e n : List Char} (he : ∀ c ∈ e, c ≠ ' ') (hn : PlainTok n) :
+    skipTag ('!' :: '!' :: e ++ ' ' :: n) = n := by
+  obtain ⟨c, cs, rfl, hc⟩ := hn.head
+  have h1 : ('!' :: '!' :: e ++ ' ' :: c :: cs).dropWhile (· != ' ') = ' ' :: c :: cs := by
+    have := dropWhile_tag ('!' :: '!' :: e) (c :: cs) (fun x hx => by
+      simp only [List.mem_cons] at hx
+      rcases hx with rfl | rfl | hx
+      · decide
+      · decide
+      · exact he x hx)
+    simpa using this
+  have hcs : c ≠ ' ' := isTokChar_ne hc ' ' (by decide)
+  unfold skipTag
+  simp only [h1]
+  simp [dropSpaces, hcs]
+
+
+/-- a line `!!Enum tok` reads as the plain token `tok` (the tag is ignored by an untyped target) -/
+theorem blockNode_tagged (fuel m : Nat) (seqAt : Option Nat) (inl : Bool) (i : Nat) {e t : List Char}
+    (rest : List Line) (he : ∀ c ∈ e, c ≠ ' ') (ht : PlainTok t) (hi : m ≤ i) (hd : DedLt m rest) :
+    blockNode (fuel + 1) m seqAt inl (⟨i, '!' :: '!' :: e ++ ' ' :: t⟩ :: rest) = some (resolvePlain t, rest) := by
+  obtain ⟨c, cs, e', hc⟩ := ht.head
+  have hns : (⟨i, '!' :: '!' :: e ++ ' ' :: t⟩ : Line).isSkippable = false := notSkippable_of_head (by decide)
+  have hcl : classify ('!' :: '!' :: e ++ ' ' :: t) = .other := by simp [classify]
+  have hlt : ¬ (i < m) := by omega
+  have hsk := skipTag_tagged he ht
+  have hne : ∀ x : Char, isTokChar x = false → (c == x) = false := fun x hx => by
+    simp only [beq_eq_false_iff_ne]; exact isTokChar_ne hc x hx
+  rw [blockNode, skipBlank_cons rest hns]
+  simp only [hcl, hlt, decide_false, Bool.false_and, Bool.false_eq_true, if_false, hsk]
+  rw [e']
+  simp only [hne '[' (by decide), hne '{' (by decide), hne '|' (by decide), hne '>' (by decide), hne '&' (by decide),
+    hne '*' (by decide), hne '%' (by decide), hne '@' (by decide), hne '`' (by decide), hne '"' (by decide),
+    hne '\'' (by decide), hne '#' (by decide), Bool.or_self, Bool.false_eq_true, if_false]
+  rw [← e', implicitKey_plainTok ht, plainFirstLine_plainTok ht]
+  simp only [Bool.false_eq_true, if_false, plainContinuation_ded hd]
+
+
+section
+variable {o : Opts} {f : ScalarFns}
+
+/-- (T) the NAME of a unit variant is data (an untyped target reads the string of the name): it is written
+by the VALUE rule in value positions — bare, or after the tag `!!Enum ` of `tagged_enums` — and by the
+KEY rule in key positions (`KeyScalarSink` for a unit variant used as a mapping key,
+`write_plain_or_quoted` for the key of `Variant: payload`); for a safe name every rule writes the name
+itself, whatever `yaml_12` / `tagged_enums` / block or flow context, and the reader takes `!!Enum name`,
+`name` and `name:` for the string `name`.  Without `tagged_enums` a unit variant is written exactly like
+the string of its name (any name). -/
+theorem unit_variant_name_roundtrip (hq : o.quoteAll = false) (hf : SafeContract f) {n : List Char}
+    (hn : isSafeStr n = true) :
+    (∀ fl, plainOrQuotedValue o f fl n = n) ∧
+    (∀ e s, o.taggedEnums = true → ser o f (.unitVariant e n) s =
+      .ok (writeEndOfScalar ((indentIfLineStart o (writeSpaceIfPending s)).write ("!!".toList ++ e ++ ' ' :: n)))) ∧
+    (∀ e m s, o.taggedEnums = false → ser o f (.unitVariant e m) s = ser o f (.str m) s) ∧
+    (∀ e, keyText o f (.unitVariant e n) = some n) ∧ plainOrQuoted o f n = n ∧
+    (∀ e fuel m sa inl i rest, (∀ c ∈ e, c ≠ ' ') → m ≤ i → DedLt m rest →
+      blockNode (fuel + 1) m sa inl (⟨i, '!' :: '!' :: e ++ ' ' :: n⟩ :: rest) = some (.str n, rest)) ∧
+    (∀ fuel m sa inl i rest, m ≤ i → DedLt m rest →
+      blockNode (fuel + 1) m sa inl (⟨i, n⟩ :: rest) = some (.str n, rest)) ∧
+    (∀ after, colonEndsKey after = true → implicitKey (n ++ ':' :: after) = some (.str n, after)) := by
+  have hval : ∀ fl, plainOrQuotedValue o f fl n = n := fun fl => by
+    simp [plainOrQuotedValue, hq, hf.value n o.yaml12 fl hn, hf.shape n hn]
+  have hkey : plainOrQuoted o f n = n := by
+    simp [plainOrQuoted, hq, hf.plain n hn, hf.value n o.yaml12 true hn, hf.shape n hn]
+  refine ⟨hval, ?_, ?_, ?_, hkey, ?_, ?_, fun after ha => implicitKey_key hn after ha⟩
+  · intro e s ht
+    simp [ser, ht, serTaggedScalar, hval]
+  · intro e m s ht
+    simp [ser, ht]
+  · intro e
+    simp [keyText, keyStrText, hf.plain n hn, hf.value n o.yaml12 true hn, hf.shape n hn]
+  · intro e fuel m sa inl i rest he hi hd
+    rw [blockNode_tagged fuel m sa inl i rest he (safe_plainTok hn) hi hd, resolvePlain_safe hn]
+  · intro fuel m sa inl i rest hi hd
+    rw [blockNode_plain fuel m sa inl i rest (safe_plainTok hn) hi hd, resolvePlain_safe hn]
+
+end
+
+/-- (regression, seed C20/3 and fix b697ff3) a variant named like a YAML 1.1 boolean: after the tag of
+`tagged_enums` the VALUE rule quotes it (the key rule of the time did not know these spellings: `!!Axis Y`
+reads as `true`), in key position the KEY rule quotes it, both for a unit variant used as a mapping key
+and — since fix b697ff3 — for the key of `Variant: payload` (`Y: 1` used to be written and read back with
+the key `true`); all of them read back as the string "Y". -/
+theorem unit_variant_yaml11_bool_name_regression :
+    emit { taggedEnums := true } implFns (.seq [.unitVariant "Axis".toList "x".toList, .unitVariant "Axis".toList "Y".toList]) =
+      .ok "- !!Axis x\n- !!Axis \"Y\"\n".toList ∧
+    readDoc "- !!Axis x\n- !!Axis \"Y\"\n".toList = some (.seq [.str "x".toList, .str "Y".toList]) ∧
+    readDoc "- !!Axis x\n- !!Axis Y\n".toList = some (.seq [.str "x".toList, .bool true]) ∧
+    emit { taggedEnums := true } implFns (.flowSeq (.seq [.unitVariant "Axis".toList "Off".toList])) = .ok "[!!Axis \"Off\"]\n".toList ∧
+    readDoc "[!!Axis \"Off\"]\n".toList = some (.seq [.str "Off".toList]) ∧
+    emit {} implFns (.map true [(.unitVariant "Axis".toList "Y".toList, .int 1)]) = .ok "\"Y\": 1\n".toList ∧
+    emit {} implFns (.newtypeVariant "Y".toList (.int 1)) = .ok "\"Y\": 1\n".toList ∧
+    readDoc "\"Y\": 1\n".toList = some (.map [(.str "Y".toList, .int 1)]) ∧
+    readDoc "Y: 1\n".toList = some (.map [(.bool true, .int 1)]) :=
+  ⟨rfl, by decide +kernel, by decide +kernel, rfl, by decide +kernel, rfl, rfl, by decide +kernel, by decide +kernel⟩
+
 
 /-! ## counterexamples (F): the defect classes still present -/
 
